@@ -5,12 +5,20 @@ latin-1 string, expected table from Python's csv.reader on the blank-normalised 
   op='drv'  read_file_using_fast_csv_reader called directly with chosen column_offsets (tight budgets force the
             regrowth paths) and real IndexedStringImporter objects over an in-memory stand-in for the HDF5 field;
   op='csv'  parsers.read_csv_with_schema_dict into a real HDF5 dataframe (include / exclude, 10*chunk_row_size budgets).
-Canonical result: [rows, [[indices, values] per imported column]].
+  op='typ'  (SC05) the same import with a TYPED schema: every column has a definition 'defs'[j] = ['str'] | ['fix', n] |
+            ['cat', cats] | ['leaky', cats] | ['bool', inv, mode] | ['int', dtype, inv, mode]; the real importer objects
+            (IndexedString / FixedString / Categorical / LeakyCategorical / Numeric importers, each with its own state
+            carried from one reader pass to the next) write into a real HDF5 dataframe.  Without 'offs' the import goes
+            through parsers.read_csv_with_schema_dict (production budgets field_size*chunk_row_size); with 'offs' the
+            driver is called directly with those column_offsets (tight budgets: regrowth, passes that commit no record).
+            Model: Model/CsvTyped.v (generic driver + the importer models of Model/Transform.v).
+Canonical result: [rows, [[indices, values] per imported column]]; a typed column is [data] (fix, cat),
+[codes, freetext indices, freetext values] (leaky) or [values, flags] (bool, int; flags = [] in strict mode).
 """
 import os, io, csv, json, itertools
 
 PROP, NUM = 'C05', 5
-PROPS_FILES = ['Props/C05.v']
+PROPS_FILES = ['Props/C05.v', 'Props/C05Typed.v']
 MODES = ['jit', 'nojit']
 MODES_THOROUGH = ['jit', 'nojit', 'bounds']
 LEVEL = 'proof'
@@ -111,6 +119,8 @@ def names_of(case):
 def imap_of(case):
     if case['op'] == 'drv':
         return case['imap']
+    if case['op'] == 'typ':
+        return case['imap'] if case.get('imap') is not None else list(range(len(case['hdr'])))
     names = [k.strip() for k in names_of(case)]
     ftu = names
     if case.get('inc') is not None:
@@ -128,6 +138,98 @@ def enc_cols(tab, imap):
             b = r[j].encode('latin-1')
             vals.extend(b); idx.append(len(vals))
         cols.append([idx, vals])
+    return [len(tab), cols]
+
+
+
+# ----------------------------------------------------------------------------- typed columns (op='typ'): reference
+DT_RANGE = {'int8': (-128, 127), 'uint8': (0, 255), 'int16': (-32768, 32767), 'uint16': (0, 65535),
+            'int32': (-2 ** 31, 2 ** 31 - 1), 'uint32': (0, 2 ** 32 - 1), 'int64': (-2 ** 63, 2 ** 63 - 1)}
+TRUE_LITS = (b'1', b'y', b't', b'on', b'yes', b'true')
+FALSE_LITS = (b'0', b'n', b'f', b'no', b'off', b'false')
+
+
+class _NoSpec(Exception):
+    """the reference does not speak (the import is expected to raise: strict / allow_empty validation)"""
+
+
+def field_size(d):
+    """ImporterDefinition._field_size (production budget of the column = field_size * chunk_row_size)"""
+    k = d[0]
+    if k == 'str': return 10
+    if k == 'fix': return d[1]
+    if k in ('cat', 'leaky'):        # fix F-C05f: at least 1 (a table whose keys are all empty asked for a zero budget)
+        return max([len(key.encode('latin-1').decode('utf-8')) for key, _ in d[1]] + [1])
+    if k == 'bool': return 5
+    return 20
+
+
+def spec_col(d, cells):
+    """what the property promises for one column, from the cell texts alone (bytes)"""
+    k = d[0]
+    if k == 'str':
+        idx, vals = [0], []
+        for c in cells:
+            vals.extend(c); idx.append(len(vals))
+        return [idx, vals]
+    if k == 'fix':
+        n = d[1]
+        out = []
+        for c in cells:
+            out.extend(c[:n].ljust(n, b'\0'))
+        return [out]
+    if k == 'cat':
+        m = {key.encode('latin-1'): v for key, v in d[1]}
+        return [[m.get(c, 0) for c in cells]]
+    if k == 'leaky':
+        m = {key.encode('latin-1'): v for key, v in d[1]}
+        codes, idx, vals = [], [0], []
+        for c in cells:
+            if c in m:
+                codes.append(m[c])
+            else:
+                codes.append(-1); vals.extend(c)
+            idx.append(len(vals))
+        return [codes, idx, vals]
+    if k == 'bool':
+        inv, mode = d[1], d[2]
+        vals, flags = [], []
+        for c in cells:
+            t = c.strip(b' ').lower()
+            if t in TRUE_LITS or t in FALSE_LITS:
+                vals.append(1 if t in TRUE_LITS else 0); flags.append(1)
+            elif (t == b'' and mode >= 1) or mode == 2:
+                vals.append(1 if inv else 0); flags.append(0)
+            else:
+                raise _NoSpec()
+        return [vals, flags if mode != 0 else []]
+    if k == 'int':
+        lo, hi = DT_RANGE[d[1]]
+        inv, mode = d[2], d[3]
+        vals, flags = [], []
+        for c in cells:
+            if c.strip() == b'':
+                if mode == 0: raise _NoSpec()
+                vals.append(inv); flags.append(0); continue
+            try:
+                v = int(c)
+            except ValueError:
+                v = None
+            if v is not None and lo <= v <= hi:
+                vals.append(v); flags.append(1)
+            elif mode == 2:
+                vals.append(inv); flags.append(0)
+            else:
+                raise _NoSpec()
+        return [vals, flags if mode != 0 else []]
+    raise ValueError(k)
+
+
+def spec_typed(case, tab):
+    defs, imap = case['defs'], imap_of(case)
+    cols = []
+    for j in imap:
+        cols.append(spec_col(defs[j], [r[j].encode('latin-1') for r in tab]))
     return [len(tab), cols]
 
 
@@ -158,6 +260,64 @@ class _DF:
         return f
 
 
+class _TArr:
+    """typed stand-in for a field's HDF5 dataset: write_part = cast to the dataset's dtype, copy, append"""
+    def __init__(self, dtype):
+        self.dtype = _np.dtype(dtype)
+        self.parts = []
+
+    def write_part(self, part):
+        self.parts.append(_np.array(part).astype(self.dtype))      # h5py casts and copies at once
+
+    def complete(self):
+        pass
+
+    def get(self):
+        return _np.concatenate(self.parts) if self.parts else _np.zeros(0, dtype=self.dtype)
+
+
+class _TField:
+    def __init__(self, dtype=None, keys=None):
+        if dtype is None:
+            self.indices, self.values = _TArr('int64'), _TArr('uint8')
+            self.data = self.values            # IndexedStringField.data.complete() is all the importers use
+        else:
+            self.data = _TArr(dtype)
+        self.keys = dict(keys or {})
+
+
+class _TDataset:
+    session = None
+
+
+class _TDF:
+    """memory stand-in for the destination dataframe of a typed import (storage itself is property C01)"""
+    def __init__(self):
+        self.fields = {}
+        self.dataset = _TDataset()
+
+    def _add(self, name, f):
+        if name in self.fields:
+            raise ValueError('field %s exists' % name)
+        self.fields[name] = f
+        return f
+
+    def create_indexed_string(self, name, timestamp=None, chunksize=None):
+        return self._add(name, _TField())
+
+    def create_categorical(self, name, nformat, key, timestamp=None, chunksize=None):
+        return self._add(name, _TField(nformat, key))
+
+    def create_numeric(self, name, nformat, timestamp=None, chunksize=None):
+        return self._add(name, _TField(nformat))
+
+    def create_fixed_string(self, name, length, timestamp=None, chunksize=None):
+        return self._add(name, _TField('S%d' % length))
+
+    def create_timestamp(self, name, timestamp=None, chunksize=None):
+        return self._add(name, _TField('float64'))
+
+
 def setup():
     global _np, _C, _P, _FI, _S, _ds, _tmp
     import warnings, tempfile
@@ -178,11 +338,105 @@ def warmup():
          'offs': [0, 100, 200], 'imap': [0, 1]})
 
 
+MODE_NAME = {0: 'strict', 1: 'allow_empty', 2: 'relaxed'}
+
+
+def _definition(d):
+    FI = _FI
+    k = d[0]
+    if k == 'str': return FI.String()
+    if k == 'fix': return FI.String(d[1])
+    if k in ('cat', 'leaky'):
+        cats = {key.encode('latin-1').decode('utf-8'): v for key, v in d[1]}
+        return FI.Categorical(cats, 'int8', allow_freetext=(k == 'leaky'))
+    if k == 'bool': return FI.Numeric('bool', d[1], MODE_NAME[d[2]], True, '_valid')
+    if k == 'int': return FI.Numeric(d[1], d[2], MODE_NAME[d[3]], True, '_valid')
+    raise ValueError(k)
+
+
+def _read_col_mem(df, name, d):
+    k = d[0]
+    F = df.fields
+    ints = lambda a: [int(x) for x in a.get()]
+    if k == 'str':
+        return [ints(F[name].indices), ints(F[name].values)]
+    if k == 'fix':
+        return [list(F[name].data.get().tobytes())]
+    if k == 'cat':
+        return [ints(F[name].data)]
+    if k == 'leaky':
+        ft = F[name + '_freetext']
+        return [ints(F[name].data), ints(ft.indices), ints(ft.values)]
+    fl = name + '_valid'
+    return [ints(F[name].data), ints(F[fl].data) if fl in F else []]
+
+
+def _read_col(df, name, d):
+    k = d[0]
+    ints = lambda a: [int(x) for x in a]
+    if k == 'str':
+        return [df[name].indices[:].tolist(), df[name].values[:].tolist()]
+    if k == 'fix':
+        a = df[name].data[:]
+        assert a.dtype == _np.dtype('S%d' % d[1])
+        return [list(a.tobytes())]
+    if k == 'cat':
+        return [ints(df[name].data[:])]
+    if k == 'leaky':
+        ft = df[name + '_freetext']
+        return [ints(df[name].data[:]), ints(ft.indices[:]), ints(ft.values[:])]
+    fl = name + '_valid'
+    return [ints(df[name].data[:]), ints(df[fl].data[:]) if fl in df else []]
+
+
+def _run_typed_mem(case, path):
+    np = _np
+    df = _TDF()
+    names = [k.strip() for k in case['hdr']]
+    defs = case['defs']
+    imap = imap_of(case)
+    if case.get('offs') is None:
+        schema = {names[j]: _definition(defs[j]) for j in range(len(names))}
+        _P.read_csv_with_schema_dict(path, df, schema, 0.0, None, None, case['crs'])
+        rows = len(df.fields['j_valid_from'].data.get())
+    else:
+        imps = [_definition(defs[j])._importer(None, df, names[j], 0.0) for j in imap]
+        rows = int(_C.read_file_using_fast_csv_reader(path, case['crs'], np.array(case['offs'], dtype=np.int64),
+                                                      list(imap), imps, None))
+    return [rows, [_read_col_mem(df, names[j], defs[j]) for j in imap]]
+
+
+def _run_typed(case, path):
+    np = _np
+    if case.get('mem'):
+        return _run_typed_mem(case, path)
+    _n[0] += 1
+    name = 'y%d_%d' % (os.getpid(), _n[0])
+    df = _ds.create_dataframe(name)
+    try:
+        names = [k.strip() for k in case['hdr']]
+        defs = case['defs']
+        imap = imap_of(case)
+        if case.get('offs') is None:
+            schema = {names[j]: _definition(defs[j]) for j in range(len(names))}
+            _P.read_csv_with_schema_dict(path, df, schema, 0.0, None, None, case['crs'])
+            rows = len(df['j_valid_from'].data)
+        else:
+            imps = [_definition(defs[j])._importer(_S, df, names[j], 0.0) for j in imap]
+            rows = int(_C.read_file_using_fast_csv_reader(path, case['crs'], np.array(case['offs'], dtype=np.int64),
+                                                          list(imap), imps, None))
+        return [rows, [_read_col(df, names[j], defs[j]) for j in imap]]
+    finally:
+        del _ds[name]
+
+
 def _run(case):
     np = _np
     path = os.path.join(_tmp, 'f%d.csv' % os.getpid())
     with open(path, 'wb') as f:
         f.write(text_of(case).encode('latin-1'))
+    if case['op'] == 'typ':
+        return _run_typed(case, path)
     if case['op'] == 'drv':
         df = _DF()
         imap = case['imap']
@@ -223,11 +477,28 @@ def _b(s):
     return list(s.encode('latin-1'))
 
 
+def def_val(d):
+    k = d[0]
+    if k == 'str': return [0]
+    if k == 'fix': return [1, d[1]]
+    if k in ('cat', 'leaky'): return [2 if k == 'cat' else 3, [[_b(key), v] for key, v in d[1]]]
+    if k == 'bool': return [4, d[1], d[2]]
+    lo, hi = DT_RANGE[d[1]]
+    return [5, lo, hi, d[3], list(str(d[2]).encode()), d[2]]
+
+
 def to_val(case):
     file = _b(text_of(case))
     opt = lambda x: [] if x is None else [[_b(k) for k in x]]
     if case['op'] == 'drv':
         return [1, file, case['crs'], ncols_of(case), case['offs'], case['imap']]
+    if case['op'] == 'typ':
+        defs = case['defs']
+        if case.get('offs') is not None:
+            imap = imap_of(case)
+            return [3, file, case['crs'], ncols_of(case), case['offs'], imap, [def_val(defs[j]) for j in imap]]
+        names = [k.strip() for k in case['hdr']]
+        return [4, file, case['crs'], [_b(k) for k in names], [field_size(d) for d in defs], [def_val(d) for d in defs]]
     names = [k.strip() for k in names_of(case)]
     return [2, file, case['crs'], [_b(k) for k in names], [10] * len(names), opt(case.get('inc')), opt(case.get('exc'))]
 
@@ -238,9 +509,23 @@ def from_val(case, v):
         model = core.decode_err([core.ERR_TAG, v[1], v[2]])
     else:
         model = [v[0], v[1], v[2]]
+        if case['op'] == 'typ':
+            # a strict-mode numeric importer has no flag field
+            cols = []
+            for j, col in zip(imap_of(case), v[1]):
+                d = case['defs'][j]
+                if (d[0] == 'bool' and d[2] == 0) or (d[0] == 'int' and d[3] == 0):
+                    col = [col[0], []]
+                cols.append(col)
+            model = [v[0], cols, v[2]]
     tab = expected_table(case)
     if tab is None:
         return model
+    if case['op'] == 'typ':
+        try:
+            return (model, spec_typed(case, tab))
+        except _NoSpec:
+            return model
     return (model, enc_cols(tab, imap_of(case)))
 
 
@@ -284,6 +569,8 @@ def features(case, model):
                      else 'window-ends-right-after-closing-quote')
         if rows == 0 and k > 0: f.append('call-completes-no-record')
         if (vfull or ifull) and rows == 0 and k > 0: f.append('full-before-any-newline')
+    if case['op'] == 'typ':
+        f.extend(typed_features(case, tr))
     f = sorted(set(f))
     if any(ord(ch) > 127 for ch in t): f.append('multi-byte')
     if '""' in t.replace('""""', ''): f.append('doubled-quote')
@@ -299,6 +586,34 @@ def features(case, model):
         if any('"' in c for c in cells): f.append('cell:quote')
         if any(c == '' for c in cells): f.append('cell:empty')
         if any(c.startswith(' ') for c in cells): f.append('cell:leading-blank(quoted)')
+    return f
+
+
+def typed_features(case, tr):
+    f = ['typed:' + ('driver-direct(tight budgets)' if case.get('offs') is not None else 'through-parsers')]
+    f.append('typed:destination-' + ('memory-stand-in' if case.get('mem') else 'hdf5'))
+    tab, defs = case['tab'], case['defs']
+    per_pass, acc = [], 0            # the records each kernel call committed
+    for e in tr:
+        per_pass.append((acc, acc + e[4])); acc += e[4]
+    np_ = len(per_pass)
+    if np_ >= 3: f.append('typed:passes>=3')
+    if np_ >= 6: f.append('typed:passes>=6')
+    if any(a == b for a, b in per_pass[1:]): f.append('typed:pass-commits-no-record')
+    for j in imap_of(case):
+        d = defs[j]
+        f.append('typed:kind:' + d[0])
+        if d[0] == 'leaky':
+            keys = set(k for k, _ in d[1])
+            free = [sum(len(r[j]) for r in tab[a:b] if r[j] not in keys) for a, b in per_pass]
+            nz = [i for i, x in enumerate(free) if x > 0]
+            if len(nz) >= 2: f.append('typed:freetext-in->=2-passes')
+            if len(nz) >= 3: f.append('typed:freetext-in->=3-passes')
+            if nz and any(free[i] > 0 for i in range(nz[0] + 2, np_)):
+                f.append('typed:freetext-two-or-more-passes-after-the-first-freetext')
+            if nz and any(x == 0 for x in free[nz[0]:]): f.append('typed:pass-without-freetext-after-freetext')
+        if d[0] == 'str' and np_ >= 3 and any(len(r[j]) for r in tab[:per_pass[max(0, np_ - 3)][1]]):
+            f.append('typed:string-bytes-before-the-last-two-passes')
     return f
 
 
@@ -370,6 +685,144 @@ def text_case(op, t, crs, names, rng=None, **kw):
         c.setdefault('offs', [200 * i for i in range(len(names) + 1)])
         c.setdefault('imap', list(range(len(names))))
     return c
+
+
+
+# ----------------------------------------------------------------------------- typed generators (SC05)
+U_E = 'é'.encode('utf-8').decode('latin-1')
+CATS1 = [['', 0], ['a', 1], ['ab', 2]]
+CATS2 = [['yes', 1], ['no', 2], [U_E, 3], ['maybe so', 4]]
+CATS0 = [['', 0]]             # all keys empty: _field_size was 0 (F-C05f)
+TYPED_KINDS = {
+    # name: (definition, small cell pool (first cells = the most telling ones), extra cells for the random part)
+    'leaky': (['leaky', CATS1], ['x', 'a', '', 'abc'], ['ab', 'b,c', 'q"r', 'two\nlines', U_E, ' lead', 'a' * 23]),
+    'leaky2': (['leaky', CATS2], ['yes', 'nope', U_E + U_E, ''], ['no', 'maybe so', 'maybe', 'x', U_E, 'yes,no']),
+    'leaky0': (['leaky', CATS0], ['', 'x', 'yz', 'a,b'], ['q', U_E]),
+    'cat': (['cat', CATS1], ['a', 'x', '', 'ab'], ['abc', 'b', ' a']),
+    'fix': (['fix', 3], ['abcd', 'a', '', U_E + 'z'], ['abc', 'ab,cd', 'x"y']),
+    'bool': (['bool', 0, 2], ['yes', '0', '', 'q'], ['TRUE', 'off', ' y ', 'No', '2']),
+    'bool1': (['bool', 1, 1], ['1', 'n', '', 'False'], ['on', 'T']),
+    'int': (['int', 'int8', 7, 2], ['1', '-3', '', '300'], ['127', '128', 'x', ' 12', '1_0', '-128']),
+    'int1': (['int', 'int32', 0, 1], ['12', '', '-70000', '5'], ['2147483647', '0012', '+4']),
+    'int0': (['int', 'uint8', 0, 0], ['1', '255', '0', '17'], ['9', '10']),
+    'str': (['str'], ['x', '', 'p,q', 'abc'], ['q"r', 'two\nlines', U_E, 'a' * 23]),
+}
+
+
+def typ_case(hdr, tab, style, nl, crs, defs, offs=None, imap=None, eol='\n', mem=False):
+    c = {'op': 'typ', 'hdr': hdr, 'tab': tab, 'style': style, 'nl': nl, 'crs': crs, 'defs': defs}
+    if mem: c['mem'] = True          # destination = memory stand-in (fast); else a real HDF5 dataframe (~30 ms)
+    if offs is not None: c['offs'] = offs
+    if imap is not None: c['imap'] = imap
+    if eol != '\n': c['eol'] = eol
+    return c
+
+
+def passes_crs(hdr, tab, style, nl, k, eol='\n'):
+    """a chunk_row_size (>= the smallest supported one) for which the file is read in about k windows"""
+    lo, size = min_crs(hdr, tab, style, nl, eol)
+    return max(lo, -(-size // (2 * len(hdr) * max(1, k))))
+
+
+def gen_typed(tier, rng):
+    from harness import hot
+    big = tier == 'thorough'
+    kinds = list(TYPED_KINDS)
+    # TA. exhaustive: one typed column next to an id column, every cell sequence of 3 rows over 4 cells and of 4 rows
+    #     over 3 cells, EVERY supported chunk_row_size up to one window (the smallest reads one record per pass)
+    n = 0
+    stateful = ('leaky', 'leaky2', 'str', 'int')        # importers / fields with more than an append position
+    for kname in kinds:
+        d, pool, _ = TYPED_KINDS[kname]
+        shapes = [(3, pool[:4])] + ([(4, pool[:3])] if big or kname in stateful else []) + ([(5, pool[:3])] if big else [])
+        for r, cells in shapes:
+            for seq in itertools.product(cells, repeat=r):
+                n += 1
+                first = n % 2 == 0
+                hdr = ['t', 'id'] if first else ['id', 't']
+                defs = [d, ['str']] if first else [['str'], d]
+                tab = [[c, 'r%d' % i] if first else ['r%d' % i, c] for i, c in enumerate(seq)]
+                nl = n % 3 != 0
+                for crs in crs_values(hdr, tab, 'min', nl, extra=0, cap=None if big else 3):
+                    yield typ_case(hdr, tab, 'min', nl, crs, defs, mem=(n % 8 != 0))
+    # TB. tight value budgets with typed importers (driver called directly): values-full, re-entry at the saved
+    #     offset, passes that commit no record, the importer allocating from the regrown column_offsets
+    for kname in (kinds if big else ('leaky', 'cat', 'fix', 'bool', 'int', 'str')):
+        d, pool, _ = TYPED_KINDS[kname]
+        for seq in itertools.product(pool[:3], repeat=3):
+            tab = [['r%d' % i, c] for i, c in enumerate(seq)]
+            for budget in ((1, 2, 3, 5) if big else (1, 3)):
+                for crs in crs_values(HDRS[2], tab, 'min', True, extra=0, cap=3 if big else 2):
+                    n += 1
+                    yield typ_case(HDRS[2], tab, 'min', True, crs, [['str'], d], offs=[0, budget, 2 * budget], mem=(n % 8 != 0))
+    # TE. long histories: 6 / 9 / 12 records read one per pass (and two, three per pass), the cell pattern rotating
+    #     through the pool, so that importer state set in pass i is used in pass i+2 .. i+11
+    for kname in kinds:
+        d, pool, _ = TYPED_KINDS[kname]
+        for r in (6, 9, 12) + ((20,) if big else ()):
+            for shift in range(len(pool)):
+                for step in ((1, 3) if big else (1,)):
+                    tab = [['r%d' % i, pool[(i * step + shift) % len(pool)]] for i in range(r)]
+                    lo, _ = min_crs(HDRS[2], tab, 'min', True)
+                    for crs in (lo, lo + 1, 2 * lo):
+                        yield typ_case(HDRS[2], tab, 'min', True, crs, [['str'], d], mem=True)
+    # TC. structured random: 2..5 columns of random kinds, 3..24 rows (many reader passes), both quoting styles,
+    #     CRLF, production budgets through parsers or random tight budgets through the driver
+    nrand = (3000 if big else 500) * (3 if hot.changed() else 1)
+    for _ in range(nrand):
+        yield rand_typed(rng, rng.randint(3, 24), None)
+    # TD. change-directed: a new small literal K in the tree under test -> K-1, K, K+1, 2K rows / reader passes /
+    #     cell bytes, with the state-carrying kinds
+    for K in hot.hot_sizes():
+        if K > 400:
+            continue
+        for rows in sorted({max(1, K - 1), K, K + 1, 2 * K}):
+            if rows > 400:
+                continue
+            for passes in sorted({1, 2, max(1, K - 1), K, K + 1}):
+                yield rand_typed(rng, rows, passes, kinds=['leaky', 'leaky2', 'str', 'int'])
+        for kname in ('leaky', 'str', 'fix'):
+            d, pool, _ = TYPED_KINDS[kname]
+            for L in sorted({max(1, K - 1), K, K + 1}):
+                if L > 2000:
+                    continue
+                tab = [['r%d' % i, 'z' * L if i % 2 == 0 else pool[i % len(pool)]] for i in range(5)]
+                for k in (1, 3, 5):
+                    yield typ_case(HDRS[2], tab, 'min', True, passes_crs(HDRS[2], tab, 'min', True, k), [['str'], d], mem=True)
+
+
+def rand_typed(rng, r, passes, kinds=None):
+    c = rng.randint(2, 5)
+    hdr = list(HDRS[c])
+    names = [rng.choice(kinds or list(TYPED_KINDS)) for _ in range(c)]
+    if not any(k.startswith('leaky') for k in names) and rng.random() < 0.5:
+        names[rng.randrange(c)] = rng.choice(['leaky', 'leaky2'])
+    defs = [TYPED_KINDS[k][0] for k in names]
+    tab = []
+    for _ in range(r):
+        row = []
+        for k in names:
+            _, pool, extra = TYPED_KINDS[k]
+            x = rng.random()
+            row.append(rng.choice(pool) if x < 0.7 else rng.choice(extra) if x < 0.95 else rand_cell(rng))
+        tab.append(row)
+    style = rng.choice(['min', 'min', 'all'])
+    nl = rng.random() < 0.6
+    eol = '\r\n' if rng.random() < 0.15 else '\n'
+    if passes is None:
+        crs = rng.choice(crs_values(hdr, tab, style, nl, extra=1, eol=eol))
+        if rng.random() < 0.5:
+            crs = passes_crs(hdr, tab, style, nl, rng.randint(3, 12), eol)
+    else:
+        crs = passes_crs(hdr, tab, style, nl, passes, eol)
+    offs = imap = None
+    if rng.random() < 0.4:
+        offs = [0]
+        for _ in range(c):
+            offs.append(offs[-1] + rng.randint(1, 12))
+        if rng.random() < 0.3:
+            imap = [j for j in range(c) if rng.random() < 0.7]
+    return typ_case(hdr, tab, style, nl, crs, defs, offs, imap, eol, mem=rng.random() < 0.6)
 
 
 def gen(tier, rng):
@@ -452,6 +905,9 @@ def gen(tier, rng):
             case['inc'] = [h for h in hdr if rng.random() < 0.7]
             case['exc'] = [h for h in hdr if rng.random() < 0.3]
         yield case
+    # T. typed schemas: importer state carried over >= 3 reader passes (SC05)
+    for case in gen_typed(tier, rng):
+        yield case
     # F. text-level: unquoted blanks after separators / line breaks (skipped by the reader), CRLF
     blanks = ['a,b\nx,y\n z,w\n', 'a,b\nx, y\n  z,  w\nq,r\n', 'a,b\n x ,y \n,  \n', 'a,b\nx,y\n  "z",w\n',
               'a,b\n  z,w\nx,y\n  z,w\nx,y\n  z,w\n', 'a\n x\n  y\nz\n', 'a,b\nx,   \n   ,y\n']
@@ -507,15 +963,29 @@ RULE = ('exhaustive small scope: every table over a 9-cell grammar pool (empty, 
         'index buffer exactly at the window end; then seeded random tables (<= 8x6, long cells, random budgets, both '
         'quoting styles, 20% with CRLF line breaks, include/exclude through the real HDF5 import with >= 6 columns so the production budget '
         '10*chunk_row_size overflows); text-level blank-skipping and CRLF files judged against csv.reader; a malformed '
-        'stream (ragged, stray quotes, windows below the regime) compared model-vs-implementation only. Non-trivial = '
+        'stream (ragged, stray quotes, windows below the regime) compared model-vs-implementation only. TYPED schemas (SC05): '
+        'one typed column (free-text categorical x3 key tables incl. the all-empty-keys table, categorical, fixed string, bool relaxed/allow_empty, int8 relaxed, '
+        'int32 allow_empty, uint8 strict, string) next to an id column, EVERY cell sequence of 3 rows over 4 cells and 4 rows over 3 '
+        'cells x every supported chunk_row_size (the smallest reads one record per pass, so importer state crosses >= 3 passes); '
+        'every 3-row sequence with 1- and 3-byte value budgets through the driver (passes that commit no record); 6/9/12 records '
+        'read one, two and three per pass with the cell pattern rotating through the pool (long histories); seeded random '
+        'tables of 2..5 typed columns x 3..24 rows read in 3..12 passes; lengths / pass counts around every new small literal of the '
+        'tree under test; 1 typed case in 8 (random part: 4 in 10) writes into a real HDF5 dataframe (~30 ms), the others into a '
+        'casting, copying memory stand-in. Non-trivial = '
         'the call parses at least the header of a generated table.')
 TRUSTED = ['csv.DictReader header sniffing (number of columns, field names), np.fromfile, guess_encoding: exercised, not modelled',
-           'HDF5 field storage (write_part = append): property C01; op=drv uses an append-only stand-in, op=csv the real fields',
+           'HDF5 field storage (write_part = append): property C01; op=drv uses an append-only stand-in, op=csv the real fields, '
+           'op=typ the real fields or (mem) a stand-in that casts to the field dtype and copies on write_part as h5py does',
            "Python's csv.reader is the reference parser for text-level cases; table-level cases are their own reference"]
-ASSUMPTIONS = ['stop_after_rows is None', 'column names are distinct', 'all imported columns are indexed strings '
-               '(typed conversion is property C06)']
-TECHNIQUE = ('Coq proof about a byte-for-byte Gallina model of fast_csv_reader and its window/regrowth driver + exhaustive '
-             'small-scope differential correspondence against the real import')
+ASSUMPTIONS = ['stop_after_rows is None', 'column names are distinct',
+               'typed columns (op=typ): string, fixed string, categorical with and without free text, bool, int8..int32 - what a '
+               'cell text DENOTES is property C06; here the typed importers are exercised as state machines over the reader passes '
+               '(float / date / datetime importers keep no state between passes beyond their append position and are covered by C06)',
+               'category keys are distinct, valid UTF-8, codes in 0..127 (a key table whose keys are all empty is in scope: '
+               'finding F-C05f, repaired)', 'every value budget handed to the driver directly is positive']
+TECHNIQUE = ('Coq proof about a byte-for-byte Gallina model of fast_csv_reader and its window/regrowth driver, generic in the '
+             'importer list (typed importers composed from the C06 models) + exhaustive small-scope differential '
+             'correspondence against the real import, typed schemas included')
 LEVEL_TEXT = ('Theorems in coq/Props/C05.v are about the Gallina model of the byte-level FSM and the driver; the model is tied '
               'to the repository by running the extracted model and the real import on the same generated files.')
 LEVEL_NOTE = 'Trusted: Coq kernel, extraction, harness; csv.DictReader / np.fromfile are exercised, not modelled.'
